@@ -166,7 +166,70 @@ pub fn lzma2_unit_sizes(s: &[u8]) -> Option<Vec<u64>> {
     }
 }
 
+/// The decoder's cyclic dictionary (`lz::LZDecoder`) driven through the hook with scripts that follow the reader
+/// loop (set_limit / repeat_pending / symbols while has_space / flush) and with arbitrary scripts; the model
+/// (`lzdec.run`) must hand out the same bytes or the same error.
+fn lz_decoder_scripts(rep: &mut Report, rng: &mut Rng, n: u64) {
+    for i in 0..n {
+        let mut r = rng.fork();
+        let dict = match r.below(4) { 0 => r.range(1, 8), 1 => r.range(8, 64), _ => r.range(1, 300) } as usize;
+        let preset: Option<Vec<u8>> = match r.below(4) {
+            0 => None,
+            1 => Some(vec![]),
+            _ => { let l = r.range(1, 2 * dict as u64 + 3) as usize; Some(r.bytes(l)) }
+        };
+        let mut ops: Vec<(u8, usize, usize)> = vec![];
+        let reader_like = r.chance(3, 4);
+        let mut avail = preset.as_ref().map(|p| p.len().min(dict)).unwrap_or(0);
+        for _ in 0..r.range(1, 12) {
+            if reader_like {
+                ops.push((0, r.range(1, dict as u64 + 5) as usize, 0));
+                ops.push((3, 0, 0));
+                for _ in 0..r.range(0, 10) {
+                    if avail == 0 || r.chance(1, 3) {
+                        ops.push((1, r.below(256) as usize, 0));
+                        avail += 1;
+                    } else {
+                        // admissible mostly; sometimes a distance beyond what the dictionary holds
+                        let full = avail.min(dict);
+                        let dist = if r.chance(1, 12) { full + r.below(3) as usize } else { r.below(full as u64) as usize };
+                        let len = r.range(1, 2 * dict as u64 + 4) as usize;
+                        ops.push((2, dist, len));
+                        avail += len;
+                    }
+                }
+                ops.push((4, 0, 0));
+                if r.chance(1, 25) {
+                    ops.push((5, 0, 0));
+                    avail = 0;
+                }
+            } else {
+                let op = r.below(6) as u8;
+                ops.push((op, r.below(dict as u64 + 6) as usize, r.below(dict as u64 * 2 + 4) as usize));
+            }
+        }
+        let real = std::panic::catch_unwind(|| lzma_rust2::verif_hooks::lz_decoder_script(dict, preset.as_deref(), &ops));
+        let exp = match real {
+            Ok(Ok(out)) => format!("ok {} {}", out.len(), fnv(&out)),
+            Ok(Err(e)) => format!("err {e}"),
+            Err(_) => "panic".to_string(),
+        };
+        let ops_s = ops.iter().map(|(a, b, c)| format!("{a}:{b}:{c}")).collect::<Vec<_>>().join(",");
+        let pre_s = match &preset { None => "-".to_string(), Some(p) if p.is_empty() => "empty".to_string(), Some(p) => hex(p) };
+        rep.count(if reader_like { "lzdec.reader-like" } else { "lzdec.arbitrary" });
+        // a script on which the real code panics (debug assertions / index checks are on in this build) is outside the
+        // callers' protocol; the model reports it as `err panic: …` – compare only the class
+        if exp == "panic" {
+            rep.model(format!("lzdec.run dict={dict} preset={pre_s} ops={ops_s} class=1"), "panic".into());
+        } else {
+            rep.model(format!("lzdec.run dict={dict} preset={pre_s} ops={ops_s}"), exp);
+        }
+        rep.case(format!("lzdec:{}:{}", reader_like, dict.min(9)), true, || json!({"dict": dict, "preset_len": preset.as_ref().map(|p| p.len()), "ops": ops_s, "case": i}));
+    }
+}
+
 pub fn run_c07(rep: &mut Report, rng: &mut Rng, thorough: bool) {
+    lz_decoder_scripts(rep, rng, if thorough { 30000 } else { 3000 });
     // the state a filter carries from one piece to the next, checked call by call against the model
     crate::c11::bcj_steps(rep, rng, if thorough { 40000 } else { 4000 });
     let n = if thorough { 4000 } else { 300 };
